@@ -321,9 +321,9 @@ def coarse_grids(chk):
         if ph["zm"] > 12.0:
             continue
         for res in (5.0, 10.0, 25.0):
-            for wd in (None, 180.0, 33.0):
+            for wd in (None, 180.0, 33.0, 45.0, 135.0, 225.0, 315.0):      # the diagonals: cell centres exactly on the wind axis (receptor on a cell corner)
                 ext = 60 * res
-                dom = [-res / 2, ext - res / 2, -10.5 * res, 10.5 * res] if wd is None else [-10.5 * res, 10.5 * res, -res / 2, ext - res / 2] if wd == 180.0 else [-20.5 * res, 20.5 * res, -20.5 * res, 20.5 * res]
+                dom = [-res / 2, ext - res / 2, -10.5 * res, 10.5 * res] if wd is None else [-10.5 * res, 10.5 * res, -res / 2, ext - res / 2] if wd == 180.0 else [-20.5 * res, 20.5 * res, -20.5 * res, 20.5 * res] if wd == 33.0 else [-20.0 * res, 20.0 * res, -20.0 * res, 20.0 * res]
                 if wd == 180.0:
                     dom = [-10.5 * res, 10.5 * res, -(ext - res / 2), res / 2]
                 gx, gy, ffm = call_fp(ph, dom, res, [0.0, 0.0], wd)
